@@ -132,6 +132,11 @@ def corpus():
     # a standby from the very beginning, upstream changes while standing by
     cs.append(case([STOP, H(b"g1"), SET(b"c"), GONE(b"b"), ADV(1000), H(b"g1"), TT, START, R(b"c", b"g1"), R(b"b", b"g1"), A(b"c", b"g1", 2),
                     TU, STOP, ADV(3500), TT, START, TU, R(b"a", b"g1")]))
+    # an age of exactly 3 s at a timeout pass is not a timeout (time.After is strict): on the leader, and on a standby
+    # where a refused acquire does not refresh the cache entry (the two thorough-tier cases of seed 1, shrunk)
+    cs.append(case([H(b"g1"), R(b"a", b"g1"), A(b"a", b"g1", 2), ADV(3000), TT, TU, ADV(300), TT, TU]))
+    cs.append(case([STOP, H(b"g1"), ADV(900), A(b"a", b"g1", 1), ADV(2100), TT, START, TU, R(b"a", b"g1"), ADV(300), TT]))
+    cs.append(case([H(b"g-4"), A(b"a", b"g-4", 8), ADV(1000), TU, H(b"g-4"), STOP, A(b"a", b"g-4", 0), ADV(3000), TT, TT, START, TU]))
     # upstream removed from the lister without the handler running: the unknown-condition pass deletes it as
     # a whole (also the state of live instances of that upstream), the other upstream is untouched; re-added later
     cs.append(case([H(b"g1"), H(b"g2"), R(b"a", b"g1", wc=True), R(b"b", b"g1", wc=True), R(b"a", b"g2"), A(b"a", b"g1", 3), A(b"b", b"g1", 2),
@@ -156,13 +161,15 @@ def gen_hist(rng, boundary=False):
     cmax = rng.choice([5, 10, 10, 20])
     alive = {}            # instance -> True (heartbeating) / False (silent)
     hbt = {}
+    acq = {}
     now = 0
     ops = []
 
     def tick_guard():
         nonlocal now
-        # keep every age at least 250 ms away from the 3 s boundary at the time of a pass
-        if any(abs((now - t) - 3000) < 250 for t in hbt.values()):
+        # keep every possible age (since the last heartbeat, and since the last acquire — which refreshes the
+        # cache entry only while the replica leads) at least 250 ms away from the 3 s boundary at a pass
+        if any(abs((now - t) - 3000) < 250 for t in list(hbt.values()) + list(acq.values())):
             ops.append(ADV(300))
             now += 300
 
@@ -187,14 +194,14 @@ def gen_hist(rng, boundary=False):
                         ops.append(R(u, i, rng.randint(0, 30), rng.choice([0, 20, 50, 90, 120]), wc=rng.chance(1, 2)))
                     else:
                         ops.append(A(u, i, rng.randint(0, cmax + 2) if rng.chance(4, 5) else 0))
-                        hbt[i] = now          # an acquire refreshes the cache entry
+                        acq[i] = now          # an acquire refreshes the cache entry (while leading)
             elif rng.chance(1, 12):
                 # half-dead: acts without heartbeating
                 if rng.chance(1, 2):
                     ops.append(R(rng.choice(ups), i))
                 else:
                     ops.append(A(rng.choice(ups), i, rng.randint(0, 5)))
-                    hbt[i] = now
+                    acq[i] = now
         if failover and rng.chance(1, 4):
             ops.append(STOP if rng.chance(1, 2) else START)
             if rng.chance(1, 2):
@@ -239,7 +246,10 @@ def gen_saturated(rng):
 
 
 def generate(rng, tier, scale=1):
-    k = (150 if tier == "quick" else 2500) * scale
+    # thorough: 800 histories in shards of 40 (a history is long: the case files are what fills build/C18)
+    global COQ_SHARD
+    COQ_SHARD = 20 if tier == "quick" else 40
+    k = (150 if tier == "quick" else 800) * scale
     out = []
     for j in range(k):
         if j % 6 == 5:
